@@ -40,12 +40,13 @@ type Pkg struct {
 func (p *Pkg) Path() string { return Module + "/" + p.Dir }
 
 type File struct {
-	Name    string
-	Kind    FileKind
-	Pkg     *Pkg
-	Decls   []Decl
-	Head    []string        // comment lines before the package clause
-	Aliases map[*Pkg]string // explicit import alias per imported package ("" = none)
+	Name         string
+	Kind         FileKind
+	Pkg          *Pkg
+	Decls        []Decl
+	Head         []string        // comment lines before the package clause
+	Aliases      map[*Pkg]string // explicit import alias per imported package ("" = none)
+	BlankImports []*Pkg          // import _ "path" (keeps a package directly imported)
 	// filled by the renderer:
 	Lines   []string
 	Imports []*Pkg
